@@ -25,8 +25,10 @@ func coqStr(s string) string { return "\"" + strings.ReplaceAll(s, "\"", "\"\"")
 
 func shapeCoq(m *audgen.Member) string {
 	switch m.CondKind {
-	case "none", "throughout":
+	case "none", "throughout", "consttrue":
 		return "CThroughout"
+	case "constfalse":
+		return "CNever"
 	case "mood":
 		return "(CMoodIs " + coqStr(m.CondMood) + ")"
 	case "sig":
@@ -47,7 +49,8 @@ func main() {
 	if *tier == "thorough" {
 		n = 8000
 	}
-	g := &audgen.Gen{R: rng, Modalities: cmd.VerifModalities(), PErrExpr: 0.06, PErrOther: 0.15, MaxMembers: 3, WithCollect: false}
+	g := &audgen.Gen{R: rng, Modalities: cmd.VerifModalities(), PErrExpr: 0.06, PErrOther: 0.15, MaxMembers: 3, WithCollect: false, SimpleExpect: 0.4, ConstConds: true}
+	var predItems []string
 	var items []string
 	var cases []caseJSON
 	stats := map[string]int{}
@@ -78,15 +81,20 @@ func main() {
 		for k := range es {
 			evs = append(evs, es[k].Coq())
 		}
-		var shapes []string
+		var shapes, preds []string
 		sh := map[string]string{}
 		for _, m := range c.Members {
 			if m.HasState() {
 				shapes = append(shapes, "("+coqStr(m.Name)+", "+shapeCoq(m)+")")
 				sh[m.Name] = m.CondKind
 				stats["cond-"+m.CondKind]++
+				if m.ExpKind == "sig" && shapeCoq(m) != "COther" {
+					preds = append(preds, fmt.Sprintf("(%s, %s, PSigCmp %s %s %s)", coqStr(m.Name), shapeCoq(m), audgen.CoqVar(m.ExpVar), vh.Bool(m.ExpGt), audgen.CoqQ(m.ExpK, 1)))
+					stats["pred-oracle-auditors"]++
+				}
 			}
 		}
+		predItems = append(predItems, "["+strings.Join(preds, "; ")+"]")
 		items = append(items, fmt.Sprintf("{| k_cfg := %s;\n     k_events := [%s];\n     k_coll := [%s];\n     k_judge := [%s];\n     k_status := %d;\n     k_shapes := [%s] |}",
 			c.CoqCfg(res.Members, res.Watchers, res.ArrayVars), strings.Join(evs, "; "),
 			strings.Join(coll, "; "), strings.Join(judge, "; "), audgen.Status(&res), strings.Join(shapes, "; ")))
@@ -113,6 +121,7 @@ func main() {
 		}
 	}
 	vh.WriteFile(*out, "cases.v", "Definition cases : list aud_case := "+vh.ListNL(items)+".\n")
+	vh.WriteFile(*out, "preds.v", strings.Join(predItems, "\n")+"\n")
 	vh.WriteJSON(*out, "cases.json", cases)
 	var samples []interface{}
 	for _, i := range []int{0, len(cases) / 2, len(cases) - 1} {
